@@ -28,44 +28,73 @@ def expect_violation(rep, cfg, invariant, module='MC_GinCore', key=None, timeout
 
 
 def replay_behaviours(rep, sim_cfg, num, depth=12, seed_off=1, nontrivial=None, fields=None, module='GinCore_Sim',
-                      sigkey=None):
-  behs, res = tlc.export_behaviours(module, sim_cfg + '.cfg', num=num, depth=depth, seed=rep.seed + seed_off)
+                      sigkey=None, generate=None, replay_fn=None):
+  """Exports simulated behaviours from TLC and replays them into the code.  When `generate` > num,
+  `generate` behaviours are exported (cheap) and the `num` replayed ones are chosen greedily so as to cover
+  as many distinct non-trivial cases as possible (the rest at random)."""
+  import random
+  gen = max(num, generate or num)
+  behs, res = tlc.export_behaviours(module, sim_cfg + '.cfg', num=gen, depth=depth, seed=rep.seed + seed_off)
   rep.add_tlc(sim_cfg + '(simulate,export)', res, exhaustive=False)
-  if len(behs) < max(1, num // 2):
+  if len(behs) < max(1, gen // 2):
     raise tlc.TLCError('only %d behaviours exported by %s' % (len(behs), sim_cfg))
-  kw = {}
-  if fields:
-    kw['fields'] = fields
+  keys = []
   for b in behs:
-    rep.behaviours_replayed += 1
-    rep.evaluations += len(b) - 1
+    ks = set()
     if nontrivial:
       for st in b:
         k = nontrivial(st)
         if k is not None:
-          rep.nontrivial_case(k)
-    d = A.replay(b, **kw)
+          ks.add(k)
+    keys.append(ks)
+  if len(behs) > num:
+    chosen, seen = [], set()
+    order = sorted(range(len(behs)), key=lambda i: -len(keys[i]))
+    for i in order:
+      if len(chosen) >= (num * 2) // 3:
+        break
+      if keys[i] - seen:
+        chosen.append(i)
+        seen |= keys[i]
+    rest = [i for i in range(len(behs)) if i not in set(chosen)]
+    random.Random(rep.seed + 77).shuffle(rest)
+    chosen += rest[:num - len(chosen)]
+    rep.extra.setdefault('generated_behaviours', {})[sim_cfg] = len(behs)
+  else:
+    chosen = list(range(len(behs)))
+  kw = {}
+  if fields:
+    kw['fields'] = fields
+  fn = replay_fn or A.replay
+  for i in chosen:
+    b = behs[i]
+    rep.behaviours_replayed += 1
+    rep.evaluations += len(b) - 1
+    for k in keys[i]:
+      rep.nontrivial_case(k)
+    d = fn(b, **kw)
     if d is not None:
       sig = dict(kind='replay-divergence', module='GinCore', clause=d.get('clause'), action=d.get('action'))
       if sigkey:
         sig.update(sigkey(d, b))
       rep.violation(sig, dict(kind='behaviour', sim_cfg=sim_cfg, actions=A.actions_of(b), divergence=d, behaviour=b))
   if behs:
-    rep.sample(dict(kind='TLC behaviour replayed into gin', config=sim_cfg, actions=A.actions_of(behs[0])[:8]))
-  return behs
+    rep.sample(dict(kind='TLC behaviour replayed into gin', config=sim_cfg, actions=A.actions_of(behs[chosen[0]])[:8]))
+  return [behs[i] for i in chosen]
 
 
-def replay_scenarios(rep, scen_cfg, max_files=400, nontrivial=None, fields=None, timeout=900):
+def replay_scenarios(rep, scen_cfg, max_files=400, nontrivial=None, fields=None, timeout=150, depth=8):
   """Scenario-directed export (GinCore_Scen): one shortest behaviour per scenario key."""
   import os, shutil, re
   wd = tlc.scratch()
   try:
     out_dir = os.path.join(wd, 'out')
     os.mkdir(out_dir)
-    res = tlc.run('GinCore_Scen', scen_cfg + '.cfg', workers=1, env=dict(OUT_DIR=out_dir, SCEN_MAX=str(max_files)),
+    res = tlc.run('GinCore_Scen', scen_cfg + '.cfg', workers=1, env=dict(OUT_DIR=out_dir, SCEN_MAX=str(max_files), SCEN_DEPTH=str(depth)),
                   timeout=timeout, workdir=wd)
-    if res.violation:
+    if res.violation and not res.timed_out:
       raise tlc.TLCError('scenario export reported %s:\n%s' % (res.violation, res.stdout[-3000:]))
+    rep.extra.setdefault('scenario_export_timed_out', {})[scen_cfg] = bool(res.timed_out)
     behs = []
     for f in sorted(os.listdir(out_dir), key=lambda x: int(re.sub(r'\D', '', x) or 0)):
       with open(os.path.join(out_dir, f)) as fh:
